@@ -146,7 +146,13 @@ def op_unknown_distribution(rng, m):
     if not ds:
         return None
     d = rng.choice(ds)
-    return "molecule", full[: d.start(1)] + rng.choice(["gamma", "normal", "weibull", "flory", "lognormal", "Gauss"]) + full[d.end(1) :], "construct"
+    known = d.group(1)
+    # names that merely CONTAIN a documented name (prefix, suffix, other case, doubled, two names) are unknown names too
+    derived = [known + "ian", known + "_int", known + "2", "inverse_" + known, "non_" + known, "x" + known, known.upper(), known.capitalize(), known + known, known[:-1], known[1:], known + "_" + rng.choice(["gauss", "uniform", "poisson"]) if known not in ("gauss", "uniform", "poisson") else "my_" + known]
+    bad = rng.choice(["gamma", "normal", "weibull", "flory", "lognormal", "Gauss"] + derived)
+    if bad in ("gauss", "uniform", "schulz_zimm", "log_normal", "poisson", "flory_schulz"):
+        bad = "inverse_" + known
+    return "molecule", full[: d.start(1)] + bad + full[d.end(1) :], "construct"
 
 
 def op_list_length(rng, m):
